@@ -1,10 +1,11 @@
 import Driver.Util
 open Lean Replicat
-namespace Driver
-
+namespace Driver.HSched
 /-- requests `sched.*` (see DESIGN.md Appendix A) -/
 def handleSched (op : String) (j : Json) : Except String Json := do
   match op with
   | _ => throw s!"unknown op {op}"
 
-end Driver
+end Driver.HSched
+
+def Driver.handleSched := Driver.HSched.handleSched
